@@ -71,12 +71,40 @@ def transpile(instrs, debug=False, hardware=False):
     (or raises what the transpiler raises)."""
     m = M()
     sub = m["Subroutine"](instructions=list(instrs), arguments=[], netqasm_version=(0, 10), app_id=0)
+    old = m["settings"].get_is_using_hardware()
     m["settings"].set_is_using_hardware(hardware)
     try:
         out = m["T"](sub, debug=debug).transpile()
     finally:
-        m["settings"].set_is_using_hardware(False)
+        m["settings"].set_is_using_hardware(old)
     return list(out.instructions)
+
+
+def cyc_mul(x, y):
+    """product in Z[x]/(x^4+1) on coefficient lists"""
+    r = [0, 0, 0, 0]
+    for i in range(4):
+        for j in range(4):
+            k = i + j
+            if k < 4:
+                r[k] += x[i] * y[j]
+            else:
+                r[k - 4] -= x[i] * y[j]
+    return r
+
+
+def cyc_equiv_up_to_scalar(A, B):
+    """A, B: operators as lists of columns of Z[zeta_8] entries (4 ints each): A = (a/b) B, a, b != 0,
+    decided exactly by cross-multiplication (same definition as `equivUpToScalar` of Model/Gates)"""
+    fa = [e for col in A for e in col]
+    fb = [e for col in B for e in col]
+    if len(fa) != len(fb) or [len(c) for c in A] != [len(c) for c in B]:
+        return False
+    piv = next((k for k, e in enumerate(fb) if any(e)), None)
+    if piv is None or not any(fa[piv]):
+        return False
+    a, b = fa[piv], fb[piv]
+    return all(cyc_mul(x, b) == cyc_mul(y, a) for x, y in zip(fa, fb))
 
 
 def set_instr(reg, val):
